@@ -51,3 +51,42 @@ Definition C18_mapped_checks (c : cfg) (ifs : list iface) (pub : list ocand) (so
                          | Some (b, p) => existsb (fun s => addr_eqb (s_addr s) b && (s_port s =? p)) socks
                          | None => false end) pub);
     ("mapped_base_accepted"%string, forallb (base_ok c ifs) pub) ].
+
+(* ---- the UDP-mux host gatherer (gather.go gatherCandidatesLocalUDPMux) ------------------------------------------
+   With a UDP mux configured the agent opens no UDP sockets of its own for host candidates: it publishes one host
+   candidate per listen address of the mux (duplicates once), on a connection borrowed from the mux, with the mux's
+   port.  [fixed]: the repaired code skips an address whose network type is not enabled and labels the candidate with
+   the network type of the listen address also behind an mDNS name (model parameter, probed by the harness); the pinned
+   code publishes every address whatever the configured network types, as udp4 when an mDNS name is shown.  (No host rewrite rules in these
+   cases, and a mux that is not a *UDPMuxDefault, for which the loopback setting is not consulted.) *)
+Definition udpmux_nt (fixed : bool) (c : cfg) (a : addr) : Z :=
+  (* pinned: behind an mDNS name the candidate is labelled udp4 whatever the family of the listen address *)
+  if negb fixed && c_mdns c then 1 else nt_of TUdp (a6 a).
+
+Definition udpmux_one (fixed : bool) (c : cfg) (ap : addr * Z) : list cdesc :=
+  let '(a, port) := ap in
+  if fixed && negb (mem (nt_of TUdp (a6 a)) (eff_nts (c_ntypes c))) then []
+  else [mkCdesc 1 (udpmux_nt fixed c a) (host_disp c a) (PExact port) None (host_pub c a) None].
+
+Definition cdesc_key (d : cdesc) : (disp * Z) :=
+  (d_disp d, match d_port d with PExact p => p | _ => 0 end).
+Definition key_eqb (x y : disp * Z) : bool := disp_eqb (fst x) (fst y) && (snd x =? snd y).
+
+Fixpoint dedup_descs (seen : list (disp * Z)) (l : list cdesc) : list cdesc :=
+  match l with
+  | [] => []
+  | d :: t => if existsb (key_eqb (cdesc_key d)) seen then dedup_descs seen t
+              else d :: dedup_descs (cdesc_key d :: seen) t
+  end.
+
+Definition udpmux_model (fixed : bool) (c : cfg) (addrs : list (addr * Z)) : list cdesc :=
+  if negb (mem 1 (c_ctypes c)) then [] else dedup_descs [] (flat_map (udpmux_one fixed c) addrs).
+
+Definition C18_udpmux_checks (c : cfg) (pub : list ocand) : checks :=
+  [ ("udpmux_type_enabled"%string, forallb (fun o => mem (o_type o) (c_ctypes c)) pub);
+    ("udpmux_nettype_enabled"%string, forallb (fun o => mem (o_nt o) (eff_nts (c_ntypes c))) pub);
+    ("udpmux_addr_class"%string,
+       forallb (fun o => match o_disp o with DIP a => negb (bad_class a) | DName _ => true end) pub);
+    ("udpmux_mdns_name"%string,
+       forallb (fun o => if c_mdns c then disp_eqb (o_disp o) (DName (c_mdns_name c))
+                         else match o_disp o with DIP _ => true | DName _ => false end) pub) ].
